@@ -4,6 +4,7 @@ jobs=${1:-3}
 area() { case "$1" in
   RF1-*) echo "C09 C10 C11 C12 C13 C14 C16";; RF2-*) echo "C06 C03";;
   RF3-*|RF6-*|RF9-*) echo "C09 C10 C11";; RF4-*|RF7-*|RF10-*) echo "C12 C13 C14";;
-  RF5-1|RF5-2|RF5-3|RF8-1|RF8-2|RF11-1|RF11-2|RF11-3) echo "C16";; RF5-*|RF8-*|RF11-*) echo "C06 C03";; esac; }
+  RF5-1|RF5-2|RF5-3|RF8-1|RF8-2|RF11-1|RF11-2|RF11-3) echo "C16";; RF5-*|RF8-*|RF11-*|RF13-*) echo "C06 C03";;
+  RF12-1|RF12-2|RF12-5) echo "C12 C13 C14";; RF12-*) echo "C09 C10 C11";; esac; }
 export -f area
 ls /verif/refactors | xargs -P $jobs -I{} bash -c 'cks=$(area {}); /verif/tools/try_mutant.sh /verif/refactors/{}/patch.diff quick $cks | sed "s/^/{} /"'
